@@ -160,19 +160,24 @@ var knownOpen map[string]KnownEntry
 func IsKnownOpen(prop, key string) (KnownEntry, bool) {
 	knownOnce.Do(func() {
 		knownOpen = map[string]KnownEntry{}
-		b, err := os.ReadFile(filepath.Join(plug.VerifDir(), "known_findings.json"))
-		if err != nil {
-			return
-		}
-		var f struct {
-			Findings []KnownEntry `json:"findings"`
-		}
-		if json.Unmarshal(b, &f) != nil {
-			return
-		}
-		for _, e := range f.Findings {
-			if e.Status == "open" {
-				knownOpen[e.Property+"|"+e.Key] = e
+		files := []string{filepath.Join(plug.VerifDir(), "known_findings.json")}
+		extra, _ := filepath.Glob(filepath.Join(plug.VerifDir(), "agents", "*.findings.json"))
+		files = append(files, extra...)
+		for _, fn := range files {
+			b, err := os.ReadFile(fn)
+			if err != nil {
+				continue
+			}
+			var f struct {
+				Findings []KnownEntry `json:"findings"`
+			}
+			if json.Unmarshal(b, &f) != nil {
+				continue
+			}
+			for _, e := range f.Findings {
+				if e.Status == "open" {
+					knownOpen[e.Property+"|"+e.Key] = e
+				}
 			}
 		}
 	})
